@@ -30,7 +30,8 @@ EXPECTED_PROBES = ['takeover_backref_s2c', 'takeover_backref_c2s',
                    'uncompressed_mixed', 'client_compress_false',
                    'empty_compressed', 'big_compressed', 'negative_rejected',
                    'rejected_bad_params', 'no_rsv1_without_negotiation',
-                   'reconnect_negotiated', 'reconnect_not_negotiated']
+                   'reconnect_negotiated', 'reconnect_not_negotiated',
+                   'two_objects_interleaved']
 
 MODES = ['normal'] * 12 + ['no_offer', 'server_omits', 'bad_params',
                            'negative', 'negative', 'unsolicited']
@@ -38,7 +39,8 @@ MODES = ['normal'] * 12 + ['no_offer', 'server_omits', 'bad_params',
 
 def plan(tier):
     return [('seeded', 8192 if tier == 'quick' else 160000),
-            ('reconnect', 300 if tier == 'quick' else 12000)]
+            ('reconnect', 300 if tier == 'quick' else 12000),
+            ('pair', 500 if tier == 'quick' else 20000)]
 
 
 def _msg_payload(rng, history, big_ok):
@@ -161,6 +163,19 @@ def _execute_reconnect(case):
 def make_case(family, i, rng, tier):
     if family == 'reconnect':
         return _reconnect_case(rng)
+    if family == 'pair':
+        j = rng.randrange(256)
+        a = make_case('seeded', j, rng, tier)
+        # usually the same negotiated parameters on both connections
+        b = make_case('seeded', j if rng.random() < 0.7 else
+                      rng.randrange(256), rng, tier)
+        for c in (a, b):
+            c['gaps'] = [rng.choice([0, 0, 1000])]
+            if c.get('seg') == 'bytes':
+                c['seg'] = 'cuts'
+        n = rng.choice([2, 3, 5, 8])
+        return {'pair': [a, b],
+                'order': [rng.randrange(2) for _ in range(n)] + [0, 1]}
     combo = i % 256
     sw = 8 + (combo & 7)
     cw = 8 + ((combo >> 3) & 7)
@@ -428,11 +443,36 @@ def build(case):
 def execute(case):
     if case.get('mode') == 'reconnect':
         return _execute_reconnect(case)
+    if 'pair' in case:
+        return _execute_pair(case)
     res = Result()
     sc, enc, info = build(case)
+    tr = netsim.run(sc)
+    return _judge(res, case, sc, enc, info, tr)
+
+
+def _execute_pair(case):
+    """Two WebSocket objects with negotiated compression alive at once,
+    their event loops advanced in an interleaved order: each has its own
+    contexts."""
+    res = Result()
+    a, b = case['pair']
+    sa, ea, ia = build(a)
+    sb, eb, ib = build(b)
+    traces = netsim.run_multi(netsim.pair_scenario(sa, sb, case.get('order')))
+    res.stats['probe:two_objects_interleaved'] += 1
+    _judge(res, a, sa, ea, ia, traces[0])
+    h, sig, nt = res.digest, res.sig, res.nontrivial
+    _judge(res, b, sb, eb, ib, traces[1])
+    res.digest = h + res.digest
+    res.sig = sig + '||' + res.sig
+    res.nontrivial = nt and res.nontrivial
+    return res
+
+
+def _judge(res, case, sc, enc, info, tr):
     mode = case['mode']
     p = case['params']
-    tr = netsim.run(sc)
     res.stats.update(tr.world.stats)
     for k, v in enc.probes.items():
         res.stats['probe:' + k] += v
